@@ -1,0 +1,31 @@
+//go:build verif
+
+package ls
+
+import (
+	"context"
+
+	lsp "go.lsp.dev/protocol"
+)
+
+// VerifID is a read-only copy of an identifier occurrence found by collectIDs.
+type VerifID struct {
+	Offset, Endoffset int
+	Kind              int
+	Decl              bool
+	Text              string
+}
+
+// VerifCollectIDs exposes collectIDs.
+func VerifCollectIDs(ctx context.Context, filename, content string) []VerifID {
+	var ret []VerifID
+	for _, id := range collectIDs(ctx, filename, content) {
+		ret = append(ret, VerifID{id.Offset(), id.Endoffset(), id.Kind(), id.IsDecl(), id.Text()})
+	}
+	return ret
+}
+
+// VerifResolvePosition exposes resolvePosition.
+func VerifResolvePosition(content string, line, character uint32) (int, error) {
+	return resolvePosition(content, lsp.Position{Line: line, Character: character})
+}
